@@ -84,8 +84,16 @@ def build_shot(p: Dict[str, Any]):
     return shot
 
 
+_BUILT = [0]
+
+
 def build_calc(cfg: Optional[Dict[str, Any]] = None):
+    """every other calculator gets its whole-numbered settings as Python ints (-100 instead of -100.0): a setting means the
+    same number whatever numeric type carries it"""
     m = pb()
+    _BUILT[0] += 1
+    if cfg and _BUILT[0] % 2:
+        cfg = {k: (int(v) if isinstance(v, float) and v.is_integer() and abs(v) < 1e15 else v) for k, v in cfg.items()}
     return m.Calculator(_config=dict(cfg) if cfg else None)
 
 
